@@ -1338,8 +1338,15 @@ func regexpToWordMatchTree(q *query.Regexp, opt matchTreeOpt) (_ *wordMatchTree,
 		return nil, false
 	}
 
+	// wordMatchTree only looks at the bytes around an occurrence of the literal.
+	// That is \b only if the literal itself starts and ends with a word character.
+	word := string(sub[1].Rune)
+	if word == "" || !characterClass(word[0]) || !characterClass(word[len(word)-1]) {
+		return nil, false
+	}
+
 	return &wordMatchTree{
-		word:     string(sub[1].Rune),
+		word:     word,
 		fileName: q.FileName,
 	}, true
 }
